@@ -50,6 +50,14 @@ pub fn batch_mappings(batch_seed: u64, n: u64, corpus: bool, large: bool, mass: 
         // one huge mapping (> 65 536 classes and members; 150 000 classes in the thorough tier, where
         // 16 writers hold their string tables at the same time: process-wide budgets / pools)
         v.push(if mass { gen::gen_huge_n(&mut rng, 150_000) } else { gen::gen_huge(&mut rng) });
+        // one class with > 65 536 distinct methods (collisions in truncated fingerprints / hashes)
+        {
+            let mut m: Vec<u8> = b"com.example.VeryWide -> vw:\n".to_vec();
+            for k in 0..(66_000 + rng.range(0, 2000)) {
+                m.extend_from_slice(format!("    void method{}(int,T{}) -> m{}\n", k, k % 977, k % 40_000).as_bytes());
+            }
+            v.push(m);
+        }
         // and one with wide classes (> 64 distinct methods per class)
         let cfg = gen::GenCfg { max_classes: 6, max_members: 10, pct_wide_class: 60, class_pool: 16, ..gen::GenCfg::swarm(&mut rng, 10, 10) };
         v.push(gen::gen_mapping(&mut rng, &cfg));
@@ -273,7 +281,7 @@ pub fn child_main(args: &[String]) -> i32 {
                 hs.into_iter().map(|h| h.join().unwrap_or_else(|_| Err("thread died".into()))).collect()
             });
             let (steps, switches, sd) = baton.summary();
-            println!("S {} threads={} steps={} switches={} schedule={:016x}", i, t, steps, switches, sd);
+            println!("S {} threads={} steps={} switches={} schedule={:016x} stalls={}", i, t, steps, switches, sd, baton.stalls());
             for (k, o) in outs.iter().enumerate() {
                 emit(&format!("t{}", k), o);
             }
@@ -613,7 +621,7 @@ pub fn main(env: &Env) -> i32 {
     let thorough = env.thorough;
     let (n_batches, n, n_children, max_threads) = if thorough { (env.scaled(12), 1500u64, 64u64, 8u64) } else { (1, env.scaled(220), 12u64, 6u64) };
     rep.rule = format!(
-        "{} batch(es); per batch {} seeded-generated mappings (0..12 classes x 0..12 members) + 3 hand-written tie/duplicate/orphan shapes + one big generated mapping (> 8192 records) + one huge one (> 65 536 classes and members) + all corpus files (incl. the 0.7 MB and 2.3 MB ones) + an equal-length sibling for every 6th mapping are serialised by {} separately started processes, each with its own hash seed, heap layout, CPU count (affinity mask) and processing order; \
+        "{} batch(es); per batch {} seeded-generated mappings (0..12 classes x 0..12 members) + 3 hand-written tie/duplicate/orphan shapes + one big generated mapping (> 8192 records) + one huge one (> 65 536 classes and members) + one class with > 65 536 distinct methods + all corpus files (incl. the 0.7 MB and 2.3 MB ones) + an equal-length sibling for every 6th mapping are serialised by {} separately started processes, each with its own hash seed, heap layout, CPU count (affinity mask) and processing order; \
          inside a process every mapping is written twice (heap perturbed in between), once more from a misaligned copy (address % 8 in 1..7), and then by 2..{} threads concurrently under the seeded baton (every sink call is a scheduling point, chunk cap drawn from {{inf,64,7}}); in the first thorough batch a 150 000-class mapping replaces the 66 000-class one and, in 8 of the processes, is additionally converted by 16 free-running threads released from a barrier (the only phase whose schedule is not decided by the simulator); finally equal-length siblings are copied into one reused buffer and written back to back in seed-dependent order (address reuse). \
          Oracle: all outputs for one mapping are byte-identical (compared by 64-bit digest + length; full bytes re-fetched on mismatch) and as long as their own header implies. \
          distinct_nontrivial = distinct (process, mapping, phase) outputs compared beyond the reference write.",
@@ -642,6 +650,7 @@ pub fn main(env: &Env) -> i32 {
             cpu_counts.insert(o.cpus.clone());
             aslr_off_all &= o.aslr_off;
             st.add("thread_schedules", o.schedules.len() as u64);
+            st.add("baton_stalls_resolved", o.schedules.iter().filter(|l| !l.ends_with("stalls=0")).count() as u64);
             st.digest_sum = st.digest_sum.wrapping_add(o.raw_digest);
             st.runs += 1;
         }
